@@ -455,7 +455,7 @@ def rand_rec(rng, small=False):
     pid = rng.choice([0x04, 0x10, 0x16, 0x19, 0x2d, rng.randrange(256)])
     if pid == 0x27:
         pid = 0x26
-    return (0xc0, mfr + bytes([pid, rng.randrange(256)]) + bytes(rng.randrange(256) for _ in range(n)))
+    return (0xc0, mfr + bytes([pid, rng.randrange(256)]) + bytes(rng.randrange(256) for _ in range(min(n, 250))))
 
 
 def rand_inventory(rng, small=False, kinds=('bin', 'bcd', 'six', 'text'), subset=None):
